@@ -40,5 +40,7 @@ def run(chk, tier):
         t = op.split(" ")
         chk.case((t[1], t[-2], t[-1][:64]), nontrivial=set(t[-2]) != {"0"}, sample=op[:200] if r.below(500) == 0 else None)
     chk.run_family(QUICK if quick else THOROUGH, ops, cross=True)
+    from . import conf
+    conf.kuz_backend_corr(chk, 40 if quick else 1500)
     chk.assumptions.append("ARMv8 AES, NEON Kuznyechik and fixslice32 are not buildable natively on this x86-64 host; they are "
                            "outside this run (DESIGN §4.4)")
